@@ -709,7 +709,10 @@ def stepTask (c : Ctx) (s : St) : Option Out :=
         | .dagWaitDest d :: below, _ => some (dagWaitDest c s [] d below)
         | .node d n force .start :: below, _ => some (nodeStart c s [] d n force below)
         | .node d n _ .evWait :: below, _ => some (nodePost c s [] d n below (s.get n) false)
-        | .node d n force (.body k kw inv) :: below, .body o => some (nodeAfterBody c s [] d n force below k kw inv o)
+        -- (the awaited body's outcome is the one recorded when the attempt started: bodies are deterministic functions
+        -- of (kwargs, invocation, attempt))
+        | .node d n force (.body k kw inv) :: below, .body _ =>
+          some (nodeAfterBody c s [] d n force below k kw inv (c.P.body n kw inv k))
         | .node d n force (.sleep k kw inv) :: below, _ => some (nodeAttempt c s [] d n force below (k + 1) kw inv)
         | .node d n force (.cbStart j inv) :: below, _ =>
           some (cbThen c s [] (fun j => .node d n force (.cbStart j inv) :: below) j
